@@ -513,8 +513,9 @@ func checkC20(c *Ctx, r *Report) {
 		arg := ci.Common().Args[2]
 		verdict, fact := numKeysArg(arg, ppNum)
 		r.Check(verdict, "R20b", c.FnName(pp), "numKeys argument", c.Pos(ci.Pos()), fact, fact)
-		_, wholeInput := ci.Common().Args[0].(*ssa.Parameter) // the unsplit name taken as one segment (no separator configured, escaped name)
-		if verdict && arg == ssa.Value(ppNum) && !wholeInput {
+		// only the segments of a split name are in question: the unsplit name taken as one segment (no separator
+		// configured, an escaped name — also when it travels through a one-element list) is single by construction
+		if verdict && arg == ssa.Value(ppNum) && splitDerived(ci.Common().Args[0]) {
 			// nothing is cleared here: the rule "a name with more than one segment addresses list entries whatever
 			// EnableNumKeys says" is then the callers' to keep — each of them must hand over the constant false
 			// (it cannot know the number of segments without splitting the name itself)
@@ -686,6 +687,28 @@ func singleSegmentEvidence(b *ssa.BasicBlock, name ssa.Value, depth int) bool {
 		}
 	}
 	return true
+}
+
+// splitDerived: v is an element of what strings.Split returned.
+func splitDerived(v ssa.Value) bool {
+	for _, src := range append([]ssa.Value{v}, Sources(v)...) {
+		ld, ok := src.(*ssa.UnOp)
+		if !ok || ld.Op != token.MUL {
+			continue
+		}
+		ia, ok := ld.X.(*ssa.IndexAddr)
+		if !ok {
+			continue
+		}
+		for _, s2 := range append([]ssa.Value{ia.X}, Sources(ia.X)...) {
+			if call, ok := s2.(*ssa.Call); ok {
+				if g := call.Call.StaticCallee(); g != nil && g.String() == "strings.Split" {
+					return true
+				}
+			}
+		}
+	}
+	return false
 }
 
 // argOfParam: the argument a call of fn passes for parameter p.
